@@ -708,6 +708,14 @@ func main() {
 		{{"start", ""}, {"verify", "right"}, {"exchange", "genuine"}},
 		{{"start", ""}, {"verify", "right"}, {"start", ""}},
 		{{"start", ""}, {"verify", "right"}, {"exchange", "tampered-tag"}},
+		// a proved exchange, then a request that is refused for its step / method (what does the refusal leave behind?)
+		{{"start", ""}, {"verify", "right"}, {"step", "7"}},
+		{{"start", ""}, {"verify", "right"}, {"step", "0"}},
+		{{"start", ""}, {"verify", "right"}, {"step", "255"}},
+		{{"start", ""}, {"verify", "right"}, {"method", "1"}},
+		{{"start", ""}, {"verify", "right"}, {"method", "4"}},
+		{{"start", ""}, {"verify", "right"}, {"verify", "wrong-proof"}},
+		{{"start", ""}, {"verify", "right"}, {"exchange", "short"}},
 		// after a completed exchange the first start is refused, the second accepted
 		{{"start", ""}, {"verify", "right"}, {"exchange", "genuine"}, {"start", ""}, {"start", ""}},
 	}
